@@ -155,6 +155,16 @@ def check_aba(ctx, st, S, A, B, patA, patB, atol, seed, w, tol, fraction=1.0, sa
     if o1["found"] is None or o1["exception"] is not None or replcase.matches_overlap(o1["found"]) or not o1["found"]:
         st.count("not_judged")
         return 0
+    if len(patA["elements"]) >= 2 and len(S) <= 400:
+        # the substitution puts the B atoms where the aligned pattern says, up to the tolerance away from the atoms they replace: an
+        # atom group of S that misses the tolerance only just (neither a clear occurrence nor clearly none, and not reported) may come
+        # inside it in the intermediate structure and then shares atoms with a genuine occurrence. Such structures are not judged.
+        from vmon.oracle import refmatch
+        ref = refmatch.search(elements_of(S), np.asarray(S.positions, float), np.array(S.cell, float), list(patA["elements"]), np.asarray(patA["positions"], float), atol)
+        reported = {tuple(sorted(int(i) for i in m)) for m in (o1.get("all_found") or o1["found"])}
+        if ref["truncated"] or any(g["cls"] == "gray" and k not in reported for k, g in ref["groups"].items()):
+            st.count("not_judged_borderline_group_present")
+            return 0
     S1 = o1["result"]
     events.seed_all(seed)
     left = mofun.find_pattern_in_structure(S1, A, atol=atol)
